@@ -148,7 +148,13 @@ func batch(args []string) {
 			break
 		}
 		runSeed := detsim.Mix(*seed, *prop+"/"+*tier, idx)
-		plan := e.Gen(*prop, *tier, detsim.NewRand(runSeed))
+		var plan interface{}
+		if ig, ok := e.(detsim.IndexedGenerator); ok {
+			plan = ig.GenIndexed(*prop, *tier, idx)
+		}
+		if plan == nil {
+			plan = e.Gen(*prop, *tier, detsim.NewRand(runSeed))
+		}
 		var rep *detsim.RunReport
 		var rec []detsim.Choice
 		var subV *detsim.Violation
@@ -224,6 +230,9 @@ func batch(args []string) {
 	res.NonTrivialHashes, res.NonTrivialOverflow = nontriv.List(), nontriv.Overflow
 	res.States, res.StatesOverflow = states.List(), states.Overflow
 	res.WallS = time.Since(start).Seconds()
+	if ig, ok := e.(detsim.IndexedGenerator); ok {
+		res.SystematicTotal = ig.SystematicTotal(*prop, *tier)
+	}
 	b, _ := json.Marshal(res)
 	if err := os.WriteFile(*out, b, 0o644); err != nil {
 		fmt.Fprintln(os.Stderr, "simworker:", err)
